@@ -865,13 +865,15 @@ class Interp(object):
             is_and = isinstance(n.op, ast.And)
             v = None
             pending = None
-            for e in n.values:
+            for k_, e in enumerate(n.values):
                 v = self.eval(e, fr)
                 if isinstance(v, Unk) or (isinstance(v, Arr) and v.size == 1 and isinstance(v.item(), Unk)):
                     if isinstance(v, Arr):
                         v = v.item()
                     pending = v if pending is None else Unk(('and' if is_and else 'or', pending.expr, v.expr))
                     continue
+                if k_ == len(n.values) - 1 and pending is None:
+                    return v                  # python returns the last operand as it is: its truth value is never taken
                 t = self.truth(v, e, fr)
                 if is_and and not t:
                     return v
